@@ -118,36 +118,46 @@ Proof.
     + rewrite L. f_equal. rewrite !app_length, firstn_length, skipn_length. lia.
 Qed.
 
-(* guarded statement: both part counts non-zero *)
-Lemma memcpy_flat len src dest : src <> [] -> dest <> [] ->
+(* every pair of fragment lists, a zero part count included (the code with
+   docs/C17_memcpy_noparts.diff: size check before the "no part" exit) *)
+Lemma memcpy_flat len src dest :
   exists o, m_memcpy len src dest = Some (fst (flat_memcpy len (concat src) (concat dest)), o)
             /\ concat o = snd (flat_memcpy len (concat src) (concat dest))
             /\ map (@length byte) o = map (@length byte) dest.
 Proof.
-  intros Hs Hd. destruct src as [|s0 rs]; [contradiction|]. destruct dest as [|d0 rdst]; [contradiction|].
   unfold m_memcpy, flat_memcpy. rewrite !total_len_concat.
-  destruct ((0 <? len)%Z && (Z.of_nat (length (concat (s0 :: rs))) <? len)%Z) eqn:E1;
+  destruct ((0 <? len)%Z && (Z.of_nat (length (concat src)) <? len)%Z) eqn:E1;
     [eexists; split; [|split]; reflexivity|].
-  destruct ((0 <? len)%Z && (Z.of_nat (length (concat (d0 :: rdst))) <? len)%Z) eqn:E2;
+  destruct ((0 <? len)%Z && (Z.of_nat (length (concat dest)) <? len)%Z) eqn:E2;
     [eexists; split; [|split]; reflexivity|].
-  cbn [concat] in *.
-  destruct (mcp_flat (mcp_fuel (s0 :: rs) (d0 :: rdst)) len s0 rs [] d0 rdst) as (o & E & C & L).
-  { unfold mu, mcp_fuel. cbn [length]. destruct s0, d0; lia. }
+  assert (Hpre : (0 <= len)%Z -> (len <= Z.of_nat (length (concat src)))%Z /\ (len <= Z.of_nat (length (concat dest)))%Z).
   { intros Hl. apply andb_false_iff in E1, E2.
     destruct E1 as [E1|E1], E2 as [E2|E2];
       repeat match goal with H : (_ <? _)%Z = false |- _ => apply Z.ltb_ge in H end; lia. }
+  destruct src as [|s0 rs].
+  { (* no source part: nothing can be wanted *)
+    cbn [concat length] in *. exists dest.
+    assert (Hn : (if (len <? 0)%Z then Nat.min 0 (length (concat dest)) else Z.to_nat len) = 0).
+    { destruct (Z.ltb_spec len 0); [reflexivity|]. lia. }
+    rewrite Hn. destruct dest; split; [|split| |split]; reflexivity. }
+  destruct dest as [|d0 rdst].
+  { cbn [concat length] in *. exists [].
+    assert (Hn : (if (len <? 0)%Z then Nat.min (length (s0 ++ concat rs)) 0 else Z.to_nat len) = 0).
+    { destruct (Z.ltb_spec len 0); [lia|]. lia. }
+    rewrite Hn. split; [|split]; reflexivity. }
+  cbn [concat] in *.
+  destruct (mcp_flat (mcp_fuel (s0 :: rs) (d0 :: rdst)) len s0 rs [] d0 rdst) as (o & E & C & L).
+  { unfold mu, mcp_fuel. cbn [length]. destruct s0, d0; lia. }
+  { exact Hpre. }
   rewrite E. exists o. split; [|split].
   - reflexivity.
   - cbn [snd]. rewrite C. reflexivity.
   - rewrite L. reflexivity.
 Qed.
 
-Lemma memcpy_noparts len src dest : src = [] \/ dest = [] -> m_memcpy len src dest = Some (0%Z, dest).
-Proof. intros [H|H]; subst; unfold m_memcpy; [reflexivity|]. destruct src; reflexivity. Qed.
-
-(* the unguarded statement is false: no source part at all returns 0, an empty
-   source part returns -1 for the same (empty) flat source *)
-Lemma memcpy_noparts_refuted :
-  exists len src dest o, m_memcpy len src dest = Some o
-    /\ fst o <> fst (flat_memcpy len (concat src) (concat dest)).
-Proof. exists 1%Z, [], [[65%N]], (0%Z, [[65%N]]). split; [reflexivity|]. vm_compute. discriminate. Qed.
+(* a zero part count: 0 unless a positive length was asked for *)
+Lemma memcpy_noparts len src dest : src = [] \/ dest = [] -> (len <= 0)%Z -> m_memcpy len src dest = Some (0%Z, dest).
+Proof.
+  intros H Hl. unfold m_memcpy. replace (0 <? len)%Z with false by (symmetry; apply Z.ltb_ge; lia).
+  cbn [andb]. destruct H; subst; [reflexivity|]. destruct src; reflexivity.
+Qed.
